@@ -1,0 +1,359 @@
+//! verification hooks (cargo feature "verif")
+//!
+//! everything in this module is inert unless a harness installs a [`Hooks`] object:
+//! spawns go to tokio, the clock and the id generator are the real ones and the
+//! points / traces return at once.
+use std::cell::RefCell;
+use std::future::Future;
+use std::panic::Location;
+use std::pin::Pin;
+use std::sync::{Arc, RwLock};
+
+pub type Fut = Pin<Box<dyn Future<Output = ()> + Send + 'static>>;
+
+/// label attached to the next spawn of the current thread
+#[derive(Debug, Clone)]
+pub struct Note {
+    pub kind: &'static str,
+    pub pid: String,
+    pub tid: String,
+}
+
+#[derive(Debug, Clone)]
+pub struct TaskDump {
+    pub tid: String,
+    pub nid: String,
+    pub kind: String,
+    pub uses: String,
+    pub key: String,
+    pub level: usize,
+    pub state: String,
+    pub prev: Option<String>,
+    pub data: String,
+    pub err: Option<String>,
+    pub start_time: i64,
+    pub end_time: i64,
+    pub timestamp: i64,
+    pub hooks: String,
+}
+
+#[derive(Debug, Clone)]
+pub struct ProcDump {
+    pub pid: String,
+    pub mid: String,
+    pub state: String,
+    pub err: Option<String>,
+    pub env: String,
+    pub start_time: i64,
+    pub end_time: i64,
+    pub tasks: Vec<TaskDump>,
+}
+
+pub enum TraceEvent<'a> {
+    /// a write to the task state (before it takes effect)
+    StateWrite {
+        pid: &'a str,
+        tid: &'a str,
+        nid: &'a str,
+        kind: String,
+        old: String,
+        new: String,
+        pure: bool,
+    },
+    /// a task event is reported to the runtime (store upsert, hooks, message)
+    TaskEvent {
+        pid: &'a str,
+        tid: &'a str,
+        nid: &'a str,
+        kind: String,
+        state: String,
+        emit_message: bool,
+        dump: &'a dyn Fn() -> ProcDump,
+    },
+    /// a process event is reported to the runtime
+    ProcEvent {
+        pid: &'a str,
+        state: String,
+        dump: &'a dyn Fn() -> ProcDump,
+    },
+    /// a message is generated for the channel `message | start | complete | error`
+    Emit {
+        channel: &'static str,
+        msg: &'a crate::Message,
+    },
+}
+
+pub trait Hooks: Send + Sync {
+    fn spawn(&self, site: &'static Location<'static>, note: Option<Note>, fut: Fut);
+    fn point(&self, _class: &'static str, _pid: &str, _tid: &str) {}
+    fn now_micros(&self) -> Option<i64> {
+        None
+    }
+    fn next_id(&self, _len: usize) -> Option<String> {
+        None
+    }
+    fn trace(&self, _ev: &TraceEvent<'_>) {}
+}
+
+static HOOKS: RwLock<Option<Arc<dyn Hooks>>> = RwLock::new(None);
+
+thread_local! {
+    static NOTE: RefCell<Option<Note>> = const { RefCell::new(None) };
+}
+
+pub fn install(h: Arc<dyn Hooks>) {
+    *HOOKS.write().unwrap() = Some(h);
+}
+
+pub fn uninstall() {
+    *HOOKS.write().unwrap() = None;
+}
+
+pub fn hooks() -> Option<Arc<dyn Hooks>> {
+    HOOKS.read().unwrap().clone()
+}
+
+pub fn note(kind: &'static str, pid: &str, tid: &str) {
+    if hooks().is_some() {
+        NOTE.with(|n| {
+            *n.borrow_mut() = Some(Note {
+                kind,
+                pid: pid.to_string(),
+                tid: tid.to_string(),
+            })
+        });
+    }
+}
+
+fn take_note() -> Option<Note> {
+    NOTE.with(|n| n.borrow_mut().take())
+}
+
+pub fn point(class: &'static str, pid: &str, tid: &str) {
+    if let Some(h) = hooks() {
+        h.point(class, pid, tid);
+    }
+}
+
+pub fn now_micros() -> Option<i64> {
+    hooks().and_then(|h| h.now_micros())
+}
+
+pub fn next_id(len: usize) -> Option<String> {
+    hooks().and_then(|h| h.next_id(len))
+}
+
+pub(crate) fn trace_state(task: &crate::scheduler::Task, new: &crate::TaskState, pure: bool) {
+    if let Some(h) = hooks() {
+        let old: String = task.state_quiet().into();
+        let new: String = new.into();
+        h.trace(&TraceEvent::StateWrite {
+            pid: &task.pid,
+            tid: &task.id,
+            nid: task.node().id(),
+            kind: task.node().kind().to_string(),
+            old,
+            new,
+            pure,
+        });
+    }
+}
+
+pub(crate) fn trace_task_event(task: &Arc<crate::scheduler::Task>, emit_message: bool) {
+    if let Some(h) = hooks() {
+        let proc = task.proc().clone();
+        h.trace(&TraceEvent::TaskEvent {
+            pid: &task.pid,
+            tid: &task.id,
+            nid: task.node().id(),
+            kind: task.node().kind().to_string(),
+            state: task.state_quiet().into(),
+            emit_message,
+            dump: &move || dump_proc(&proc),
+        });
+    }
+}
+
+pub(crate) fn trace_proc_event(proc: &Arc<crate::scheduler::Process>) {
+    if let Some(h) = hooks() {
+        let p = proc.clone();
+        h.trace(&TraceEvent::ProcEvent {
+            pid: proc.id(),
+            state: proc.state().into(),
+            dump: &move || dump_proc(&p),
+        });
+    }
+}
+
+pub(crate) fn trace_emit(channel: &'static str, msg: &crate::Message) {
+    if let Some(h) = hooks() {
+        h.trace(&TraceEvent::Emit { channel, msg });
+    }
+}
+
+pub(crate) fn dump_proc(proc: &Arc<crate::scheduler::Process>) -> ProcDump {
+    let mut tasks: Vec<TaskDump> = proc
+        .tasks_quiet()
+        .iter()
+        .map(|t| TaskDump {
+            tid: t.id.clone(),
+            nid: t.node().id().to_string(),
+            kind: t.node().kind().to_string(),
+            uses: t.node().uses(),
+            key: t.node().key(),
+            level: t.node().level,
+            state: t.state_quiet().into(),
+            prev: t.prev(),
+            data: t.data().to_string(),
+            err: t.err().map(|e| e.to_string()),
+            start_time: t.start_time(),
+            end_time: t.end_time(),
+            timestamp: t.timestamp,
+            hooks: serde_json::to_string(&t.hooks()).unwrap_or_default(),
+        })
+        .collect();
+    tasks.sort_by(|a, b| a.tid.cmp(&b.tid));
+    ProcDump {
+        pid: proc.id().to_string(),
+        mid: proc.model().id.clone(),
+        state: proc.state().into(),
+        err: proc.err().map(|e| e.to_string()),
+        env: proc.env().to_string(),
+        start_time: proc.start_time(),
+        end_time: proc.end_time(),
+        tasks,
+    }
+}
+
+/// stands in for the `tokio` crate name in the modules that spawn
+pub mod shim {
+    pub use ::tokio::sync;
+    pub use ::tokio::time;
+    use std::future::Future;
+
+    #[track_caller]
+    pub fn spawn<F>(fut: F)
+    where
+        F: Future + Send + 'static,
+        F::Output: Send + 'static,
+    {
+        let site = std::panic::Location::caller();
+        match super::hooks() {
+            Some(h) => h.spawn(
+                site,
+                super::take_note(),
+                Box::pin(async move {
+                    let _ = fut.await;
+                }),
+            ),
+            None => {
+                ::tokio::spawn(fut);
+            }
+        }
+    }
+
+    pub mod runtime {
+        use std::future::Future;
+
+        pub struct Handle(Option<::tokio::runtime::Handle>);
+
+        impl Handle {
+            pub fn current() -> Self {
+                if super::super::hooks().is_some() {
+                    Handle(None)
+                } else {
+                    Handle(Some(::tokio::runtime::Handle::current()))
+                }
+            }
+
+            #[track_caller]
+            pub fn spawn<F>(&self, fut: F)
+            where
+                F: Future + Send + 'static,
+                F::Output: Send + 'static,
+            {
+                let site = std::panic::Location::caller();
+                match (&self.0, super::super::hooks()) {
+                    (None, Some(h)) => h.spawn(
+                        site,
+                        super::super::take_note(),
+                        Box::pin(async move {
+                            let _ = fut.await;
+                        }),
+                    ),
+                    (Some(handle), _) => {
+                        handle.spawn(fut);
+                    }
+                    (None, None) => {
+                        ::tokio::runtime::Handle::current().spawn(fut);
+                    }
+                }
+            }
+        }
+    }
+}
+
+/// engine internals for the harness
+pub struct VerifHandle {
+    rt: Arc<crate::scheduler::Runtime>,
+}
+
+impl crate::Engine {
+    pub fn verif(&self) -> VerifHandle {
+        VerifHandle { rt: self.runtime() }
+    }
+}
+
+impl VerifHandle {
+    /// what the tick timer does
+    pub fn tick(&self) {
+        self.rt.emitter().emit_tick();
+    }
+
+    pub fn cached_pids(&self) -> Vec<String> {
+        let mut v: Vec<String> = self
+            .rt
+            .cache()
+            .procs()
+            .iter()
+            .map(|p| p.id().to_string())
+            .collect();
+        v.sort();
+        v
+    }
+
+    /// drops the process from the cache only (an eviction)
+    pub fn uncache(&self, pid: &str) {
+        self.rt.cache().verif_uncache(pid);
+    }
+
+    /// the live process, if it is cached (never loads it)
+    pub fn dump(&self, pid: &str) -> Option<ProcDump> {
+        let proc = self
+            .rt
+            .cache()
+            .procs()
+            .into_iter()
+            .find(|p| p.id() == pid)?;
+        Some(dump_proc(&proc))
+    }
+
+    pub fn procs(&self) -> Arc<dyn crate::DbCollection<Item = crate::data::Proc>> {
+        self.rt.cache().store().procs()
+    }
+    pub fn tasks(&self) -> Arc<dyn crate::DbCollection<Item = crate::data::Task>> {
+        self.rt.cache().store().tasks()
+    }
+    pub fn messages(&self) -> Arc<dyn crate::DbCollection<Item = crate::data::Message>> {
+        self.rt.cache().store().messages()
+    }
+    pub fn models(&self) -> Arc<dyn crate::DbCollection<Item = crate::data::Model>> {
+        self.rt.cache().store().models()
+    }
+    pub fn events(&self) -> Arc<dyn crate::DbCollection<Item = crate::data::Event>> {
+        self.rt.cache().store().events()
+    }
+    pub fn packages(&self) -> Arc<dyn crate::DbCollection<Item = crate::data::Package>> {
+        self.rt.cache().store().packages()
+    }
+}
